@@ -21,9 +21,9 @@
 //@ fn BitSequenceRG::load
 //@ fn BitSequence::rank0 tu=libcds/src/bitsequence/BitSequence.cpp
 //@ ob rg_popcount entry=h_popcount tier=C props=C19 kind=statement
-//@ ob rg_rank entry=h_rg_rank tier=B props=C19,C07 kind=statement grid=rg nochecks=undefined-shift-check timeout=1200 gridskip=n65f2+n70f2+n96f1+n97f4+n128f4+n129f4 ttimeout=2400
-//@ ob rg_select1 entry=h_rg_select1 tier=B props=C19,C07 kind=statement grid=rg nochecks=undefined-shift-check timeout=1200 gridskip=n65f2+n70f2+n96f1+n97f4+n128f4+n129f4 ttimeout=2400
-//@ ob rg_select0 entry=h_rg_select0 tier=B props=C19,C07 kind=statement grid=rg nochecks=undefined-shift-check timeout=1200 gridskip=n65f2+n70f2+n96f1+n97f4+n128f4+n129f4 ttimeout=2400
+//@ ob rg_rank entry=h_rg_rank tier=B props=C19,C07 kind=statement grid=rg nochecks=undefined-shift-check timeout=1200 gridskip=n63f2+n64f1+n65f2+n70f2+n96f1+n97f4+n128f4+n129f4 ttimeout=2400
+//@ ob rg_select1 entry=h_rg_select1 tier=B props=C19,C07 kind=statement grid=rg nochecks=undefined-shift-check timeout=1200 gridskip=n63f2+n64f1+n65f2+n70f2+n96f1+n97f4+n128f4+n129f4 ttimeout=2400
+//@ ob rg_select0 entry=h_rg_select0 tier=B props=C19,C07 kind=statement grid=rg nochecks=undefined-shift-check timeout=1200 gridskip=n63f2+n64f1+n65f2+n70f2+n96f1+n97f4+n128f4+n129f4 ttimeout=2400
 //@ ob rg_saveload entry=h_rg_sl tier=B props=C19,C06,C08,C07 kind=statement grid=rg gridonly=n33f1+n40f2+n1f1+n32f1 quickgrid=n32f1+n33f1+n1f1 nochecks=undefined-shift-check timeout=1200
 //@ ob rg_access entry=h_access tier=C props=C19,C07 kind=statement
 #define VSTREAM_LOOP_COPY
